@@ -34,11 +34,11 @@ ASSUMPTIONS = [
     "the call that follows an undrained non-200 reply on a kept-alive connection (204, 304, chunked body) may fail whatever the peer answers: it is the 'one further call' the statement allows",
     "R11: a call that does not return within 30 s makes the case inconclusive (skipped and counted), not a violation",
 ]
-EXHAUSTIVE = ["all fault scripts of length <= 2 (quick) / <= 3 (thorough) over the 17-action alphabet, on TCP and Unix sockets"]
+EXHAUSTIVE = ["all fault scripts of length <= 2 (quick) / <= 3 (thorough) over the 19-action alphabet, on TCP and Unix sockets"]
 
 ALPHA = ["ok_ka", "ok_close", "refuse", "close_noreply", "reset", "st_cl", "st_nolen_close", "st_bodiless", "trunc", "empty200", "nonjson",
-         "st_202_body", "st_204_ka", "st_304_ka", "st_chunked", "st_103_then_200", "st_520_noreason"]
-STATUS = {"st_cl": 503, "st_nolen_close": 500, "st_bodiless": 502, "st_202_body": 202, "st_204_ka": 204, "st_304_ka": 304, "st_chunked": 503,
+         "st_202_body", "st_204_ka", "st_304_ka", "st_chunked", "st_103_then_200", "st_520_noreason", "st_json_result", "st_json_error"]
+STATUS = {"st_json_result": 503, "st_json_error": 500, "st_cl": 503, "st_nolen_close": 500, "st_bodiless": 502, "st_202_body": 202, "st_204_ka": 204, "st_304_ka": 304, "st_chunked": 503,
           "st_103_then_200": 103, "st_520_noreason": 520}
 HEALTHY = ("ok_ka", "ok_close")
 UNDRAINED = ("st_204_ka", "st_304_ka", "st_chunked", "st_103_then_200")
@@ -144,6 +144,12 @@ class Peer(object):
                     return
                 elif act == "st_cl":
                     send(b"503 Busy", b"sorry " + good)
+                elif act == "st_json_result":
+                    # an error status whose body is typed and shaped as the JSON-RPC reply to this very request
+                    send(b"503 Service Unavailable", good, b"Content-Type: application/json-rpc\r\n")
+                elif act == "st_json_error":
+                    err = json.dumps({"jsonrpc": "2.0", "id": req["id"], "error": {"code": -32603, "message": "Server error"}}).encode()
+                    send(b"500 Internal Server Error", err, b"Content-Type: application/json-rpc; charset=utf-8\r\n")
                 elif act == "st_nolen_close":
                     send(b"500 Err", b"oops " + good, length=False)
                     return
